@@ -110,6 +110,34 @@ def run(chk, prog):
                 exp = "gen_fn.__abstract_call__(*(self.args + args))  /  kwarged.__abstract_call__(self.args + args, merged kwargs)"
             chk.require(okshape, "DELEG-PREFIX", f"GenerativeFunctionClosure.{m}", "forwarded arguments", derived=show(r.ret)[:300], expected=exp, where=chk.where(ci.module, ci.methods[m]))
             n_sites += 1
+    # the two call forms merge call-time keywords over the stored ones in the SAME order (`__abstract_call__` gives the shape `__call__` then produces)
+    merges = {}
+    for m in ("__call__", "__abstract_call__"):
+        if m in ci.methods:
+            evc = Evaluator(prog)
+            evc.opaque_methods.add("_with_kwargs")
+            rr_ = evc.eval_fn(ci.methods[m], ci.module, ci)
+            mm_ = [x for x in subterms(rr_.ret) if is_t(x, "bin") and x[1] == "|" and {x[2], x[3]} == {SELF_KW, P("kwargs")}]
+            merges[m] = mm_[0] if mm_ else None
+    chk.require(len(merges) == 2 and merges["__call__"] is not None and merges["__call__"] == merges["__abstract_call__"] and merges["__call__"][2] == SELF_KW, "DELEG-PREFIX", "GenerativeFunctionClosure/kwargs-precedence",
+                "keyword merge order", derived=str({k: show(v) for k, v in merges.items()}), expected="self.kwargs | kwargs in both (call-time keywords win)", where=chk.where(ci.module, ci.methods["__call__"]))
+    # update on a closure / kwargs wrapper: the derived GenerativeFunction.update must perform the edit through SELF (C38's rule on it, taken below), and the
+    # wrappers must not shadow it with something else
+    for c_ in (ci, ik):
+        if "update" in c_.methods:
+            ru = Evaluator(prog)
+            ru.opaque_methods.add("edit")
+            rr_u = ru.eval_fn(c_.methods["update"], c_.module, c_)
+            E_ = ("call", ("attr", P("self"), "edit"), (P("key"), P("trace"), ("ctor", "Update", (P("constraint"),), ()), P("argdiffs")), ())
+            want_u = ("tuple", (mk_proj(E_, 0), mk_proj(E_, 1), mk_proj(E_, 2), ("attr", mk_proj(E_, 3), "constraint")))
+            chk.require(rr_u.ret == want_u, "DELEG-ROLE", f"{c_.name}.update", "update override of a wrapper", derived=show(rr_u.ret)[:240], expected="self.edit(key, trace, Update(constraint), argdiffs) with the backward constraint unwrapped", where=chk.where(c_.module, c_.methods["update"]))
+    from ._share import take
+    take(chk, prog, "C38", lambda o: o["instance"] == "GenerativeFunction.update", "derived update performs the edit through self (from C38)", 1)
+    # IgnoreKwargs.__abstract_call__ receives the (args, kwargs) pair like its GFI methods and forwards the positional part only
+    ra = Evaluator(prog).eval_fn(ik.methods["__abstract_call__"], ik.module, ik)
+    A_ = P("args")
+    oka = ra.ret in (("call", ("attr", ("attr", P("self"), "wrapped"), "__abstract_call__"), (("star", mk_proj(A_, 0)),), ()),)
+    chk.require(oka, "DELEG-ROLE", "IgnoreKwargs.__abstract_call__", "abstract call of a keyword-ignoring wrapper", derived=show(ra.ret)[:200], expected="self.wrapped.__abstract_call__(*args[0]) - the pair (args, kwargs) is split, the keywords dropped", where=chk.where(ik.module, ik.methods["__abstract_call__"]))
     if "__matmul__" in ci.methods:
         fn = ci.methods["__matmul__"]
         r = ev.eval_fn(fn, ci.module, ci)
